@@ -12,8 +12,12 @@ import (
 	"encoding/json"
 	"fmt"
 	"io"
+	"sort"
 	"strings"
 
+	"time"
+
+	"github.com/ossrs/go-oryx-lib/verifshim/vtime"
 	"github.com/ossrs/go-oryx-lib/websocket"
 
 	"verif/hl"
@@ -183,15 +187,65 @@ func readAll2(cf cfg, wire []byte, max int) (msgs []delivered, firstErr error, s
 type harness struct {
 	c   *hl.Ctx
 	idx int
+	// confirmation of failing cases (see confirmed)
+	probing  bool
+	pendKey  string
+	pendWhat string
+	pendCase interface{}
+}
+
+// violation notes the failing clause of the case being judged; confirmed decides whether it is reported.
+func (h *harness) violation(key, what string, cs interface{}) {
+	if h.probing {
+		h.pendKey = key
+		return
+	}
+	h.pendKey, h.pendWhat, h.pendCase = key, what, cs
+}
+
+// confirmed judges one case (judge runs the real Conn and calls h.violation at most once). The library's
+// control-frame write path (WriteControl, used for every reply of the reader) carries a 1 s wall-clock
+// deadline, so a worker process descheduled for longer than that loses a reply. The cases are otherwise
+// deterministic: a failing case is therefore judged twice more and reported when it fails again; when a
+// re-run holds, the outcome is counted as transient and the case as held.
+func (h *harness) confirmed(judge func()) {
+	h.pendKey = ""
+	judge()
+	if h.pendKey == "" {
+		return
+	}
+	key, what, cs := h.pendKey, h.pendWhat, h.pendCase
+	h.probing = true
+	held := false
+	for i := 0; i < 2; i++ {
+		h.pendKey = ""
+		judge()
+		if h.pendKey == "" {
+			held = true
+		}
+	}
+	h.probing = false
+	h.pendKey = ""
+	if held {
+		h.c.Add("transient_outcomes", 1)
+		return
+	}
+	h.c.Violation(key, what, cs)
 }
 
 // evaluate runs one frame sequence; ref is the reference receiver after the whole sequence,
 // giant = the last frame declared 2^63-1 (valid length, payload cannot follow).
 func (h *harness) evaluate(cf cfg, seq []FD, frames []wsref.Frame, ref *wsref.Receiver, giantCut bool) {
+	h.confirmed(func() { h.evaluate1(cf, seq, frames, ref, giantCut) })
+}
+
+func (h *harness) evaluate1(cf cfg, seq []FD, frames []wsref.Frame, ref *wsref.Receiver, giantCut bool) {
 	c := h.c
-	c.Eval()
-	c.Add("transitions", int64(len(seq)))
-	c.Add("traces_validated_against_impl", 1)
+	if !h.probing {
+		c.Eval()
+		c.Add("transitions", int64(len(seq)))
+		c.Add("traces_validated_against_impl", 1)
+	}
 	var wire []byte
 	for _, fr := range frames {
 		wire = append(wire, wireOf(fr, cf.Server)...)
@@ -204,7 +258,7 @@ func (h *harness) evaluate(cf cfg, seq []FD, frames []wsref.Frame, ref *wsref.Re
 	}
 	desc := fmt.Sprintf("receiver role server=%v compression=%v; frames [%s]; wire %s", cf.Server, cf.Compression, strings.Join(names, " "), hl.Hex(wire))
 	if pan != "" {
-		c.Violation("panic/"+strings.SplitN(pan, ":", 2)[0], "reader panicked: "+pan+"; "+desc, cs)
+		h.violation("panic/"+strings.SplitN(pan, ":", 2)[0], "reader panicked: "+pan+"; "+desc, cs)
 		return
 	}
 	last := seq[len(seq)-1]
@@ -223,7 +277,7 @@ func (h *harness) evaluate(cf cfg, seq []FD, frames []wsref.Frame, ref *wsref.Re
 	// delivered messages: exactly the reference's, up to the first violation
 	for i, m := range msgs {
 		if i >= len(ref.Delivered) {
-			c.Violation("delivered-extra/"+feature, fmt.Sprintf("message %d {type %d, %d bytes %q} was delivered but a conformant receiver delivers only %d messages (first violation: %q); %s", i, m.Type, len(m.Payload), trunc(m.Payload), len(ref.Delivered), ref.Failed, desc), cs)
+			h.violation("delivered-extra/"+feature, fmt.Sprintf("message %d {type %d, %d bytes %q} was delivered but a conformant receiver delivers only %d messages (first violation: %q); %s", i, m.Type, len(m.Payload), trunc(m.Payload), len(ref.Delivered), ref.Failed, desc), cs)
 			return
 		}
 		want := ref.Delivered[i]
@@ -235,30 +289,30 @@ func (h *harness) evaluate(cf cfg, seq []FD, frames []wsref.Frame, ref *wsref.Re
 			}
 		}
 		if m.Type != int(want.Opcode) || !bytes.Equal(m.Payload, wp) {
-			c.Violation("delivered-wrong/"+feature, fmt.Sprintf("message %d delivered as {type %d, %d bytes}, a conformant receiver delivers {type %d, %d bytes}; %s", i, m.Type, len(m.Payload), want.Opcode, len(wp), desc), cs)
+			h.violation("delivered-wrong/"+feature, fmt.Sprintf("message %d delivered as {type %d, %d bytes}, a conformant receiver delivers {type %d, %d bytes}; %s", i, m.Type, len(m.Payload), want.Opcode, len(wp), desc), cs)
 			return
 		}
 	}
 	if len(msgs) < len(ref.Delivered) {
-		c.Violation("delivered-missing/"+feature, fmt.Sprintf("%d messages delivered, a conformant receiver delivers %d (then: err=%v); %s", len(msgs), len(ref.Delivered), err1, desc), cs)
+		h.violation("delivered-missing/"+feature, fmt.Sprintf("%d messages delivered, a conformant receiver delivers %d (then: err=%v); %s", len(msgs), len(ref.Delivered), err1, desc), cs)
 		return
 	}
 	if err1 == nil {
-		c.Violation("no-error/"+feature, "reading went on without error past the end of the stream; "+desc, cs)
+		h.violation("no-error/"+feature, "reading went on without error past the end of the stream; "+desc, cs)
 		return
 	}
 	if err2 == nil {
-		c.Violation("error-not-permanent/"+feature, fmt.Sprintf("after the read failed with %v the next read succeeded; %s", err1, desc), cs)
+		h.violation("error-not-permanent/"+feature, fmt.Sprintf("after the read failed with %v the next read succeeded; %s", err1, desc), cs)
 		return
 	}
 	// what the endpoint wrote back
 	of, rest := wsref.ParseAll(out)
 	if len(rest) != 0 {
-		c.Violation("reply-garbage", fmt.Sprintf("the endpoint's replies do not parse as whole frames (%d trailing bytes); %s", len(rest), desc), cs)
+		h.violation("reply-garbage", fmt.Sprintf("the endpoint's replies do not parse as whole frames (%d trailing bytes); %s", len(rest), desc), cs)
 		return
 	}
 	if _, e := wsref.SenderCheck(of, !cf.Server, cf.Compression); e != nil {
-		c.Violation("reply-invalid", "the endpoint's replies violate the sender rules: "+e.Error()+"; "+desc, cs)
+		h.violation("reply-invalid", "the endpoint's replies violate the sender rules: "+e.Error()+"; "+desc, cs)
 		return
 	}
 	var pongs [][]byte
@@ -267,24 +321,24 @@ func (h *harness) evaluate(cf cfg, seq []FD, frames []wsref.Frame, ref *wsref.Re
 		switch of[i].Opcode {
 		case wsref.OpPong:
 			if closeF != nil {
-				c.Violation("reply-after-close", "a pong follows the Close frame; "+desc, cs)
+				h.violation("reply-after-close", "a pong follows the Close frame; "+desc, cs)
 				return
 			}
 			pongs = append(pongs, of[i].Payload)
 		case wsref.OpClose:
 			closeF = &of[i]
 		default:
-			c.Violation("reply-unexpected", fmt.Sprintf("unexpected frame %v written by a reader; %s", of[i], desc), cs)
+			h.violation("reply-unexpected", fmt.Sprintf("unexpected frame %v written by a reader; %s", of[i], desc), cs)
 			return
 		}
 	}
 	if len(pongs) != len(ref.Pongs) {
-		c.Violation("pong-count/"+feature, fmt.Sprintf("%d pongs sent for %d pings received before the end; %s", len(pongs), len(ref.Pongs), desc), cs)
+		h.violation("pong-count/"+feature, fmt.Sprintf("%d pongs sent for %d pings received before the end; %s", len(pongs), len(ref.Pongs), desc), cs)
 		return
 	}
 	for i := range pongs {
 		if !bytes.Equal(pongs[i], ref.Pongs[i]) {
-			c.Violation("pong-payload", fmt.Sprintf("pong %d carries %q, the ping carried %q; %s", i, trunc(pongs[i]), trunc(ref.Pongs[i]), desc), cs)
+			h.violation("pong-payload", fmt.Sprintf("pong %d carries %q, the ping carried %q; %s", i, trunc(pongs[i]), trunc(ref.Pongs[i]), desc), cs)
 			return
 		}
 	}
@@ -293,23 +347,23 @@ func (h *harness) evaluate(cf cfg, seq []FD, frames []wsref.Frame, ref *wsref.Re
 		// demanded: never accepted (checked above: nothing delivered from it, error, permanent)
 	case ref.Failed != "":
 		if closeF == nil || len(closeF.Payload) < 2 || binary.BigEndian.Uint16(closeF.Payload) != 1002 {
-			c.Violation("no-1002-close/"+feature, fmt.Sprintf("rule violation (%s) at frame %d: the read failed (%v) but no Close frame with status 1002 was sent (replies: %v); %s", ref.Failed, ref.FailedAt, err1, of, desc), cs)
+			h.violation("no-1002-close/"+feature, fmt.Sprintf("rule violation (%s) at frame %d: the read failed (%v) but no Close frame with status 1002 was sent (replies: %v); %s", ref.Failed, ref.FailedAt, err1, of, desc), cs)
 			return
 		}
 	case ref.Closed:
 		ce, ok := err1.(*websocket.CloseError)
 		if !ok || ce.Code != ref.CloseCode {
-			c.Violation("close-error", fmt.Sprintf("valid Close (code %d) received: read error is %v (%T); %s", ref.CloseCode, err1, err1, desc), cs)
+			h.violation("close-error", fmt.Sprintf("valid Close (code %d) received: read error is %v (%T); %s", ref.CloseCode, err1, err1, desc), cs)
 			return
 		}
 		if closeF == nil {
-			c.Violation("close-not-echoed", "valid Close received but no Close frame was sent back; "+desc, cs)
+			h.violation("close-not-echoed", "valid Close received but no Close frame was sent back; "+desc, cs)
 			return
 		}
 	default:
 		// the stream simply ends (between frames, inside a fragmented message, or inside a giant frame): any error
 		if closeF != nil && len(closeF.Payload) >= 2 && binary.BigEndian.Uint16(closeF.Payload) == 1002 {
-			c.Violation("spurious-1002/"+last.String(), fmt.Sprintf("a conformant stream that merely ends was answered with a 1002 Close (err %v); %s", err1, desc), cs)
+			h.violation("spurious-1002/"+last.String(), fmt.Sprintf("a conformant stream that merely ends was answered with a 1002 Close (err %v); %s", err1, desc), cs)
 			return
 		}
 	}
@@ -413,8 +467,13 @@ func (h *harness) limits(cf cfg) {
 					pts[p] = true
 				}
 			}
-			for a := range pts {
-				for b := range pts {
+			var ps []int // sorted: every shard must enumerate in the same order
+			for p := range pts {
+				ps = append(ps, p)
+			}
+			sort.Ints(ps)
+			for _, a := range ps {
+				for _, b := range ps {
 					if a > b {
 						continue
 					}
@@ -588,14 +647,22 @@ func (h *harness) cuts(cf cfg) {
 }
 
 func run(c *hl.Ctx) {
-	c.Rule("E2: depth-first enumeration of every frame sequence <= D over the abstract alphabet opcode {0,1,2,3,8,9,10,11} x FIN x RSV {0,1,2,4} x mask {right,wrong} x length {0,1,125,126,65536 honest; 2^63-1, 2^63, 2^64-1 claimed} and 13 close payloads; a prefix is extended only while the reference RFC 6455 receiver is still running; every node is replayed on a fresh real Conn (4 configurations: role x compression negotiated). Judged: delivered messages equal the reference's up to the first violation, the read fails and stays failed, a 1002 Close is sent for the listed violations, top-bit lengths are never accepted, pongs echo ping payloads in order, a valid Close is echoed. Limit family: L in {1,125,126,1000} x message sizes around L x every fragmentation into <= 3 frames over the boundary cut points, and claimed lengths overflowing the running total. Cut family: every cut offset of every valid sequence <= 3 frames. state = abstract receiver state; transition = one frame.")
-	c.Assume("non-minimal length encodings, a 1-byte Close payload and RSV1 on continuation/control frames under negotiated compression are outside the judged set", "text payloads are not checked for UTF-8 (the statement does not list it)", "the 1002 Close is not demanded for a top-bit length, only rejection")
+	c.Rule("E2: depth-first enumeration of every frame sequence <= D over the abstract alphabet opcode {0,1,2,3,8,9,10,11} x FIN x RSV {0,1,2,4} x mask {right,wrong} x length {0,1,125,126,65536 honest; 2^63-1, 2^63, 2^64-1 claimed} and 13 close payloads; a prefix is extended only while the reference RFC 6455 receiver is still running; every node is replayed on a fresh real Conn (4 configurations: role x compression negotiated). Judged: delivered messages equal the reference's up to the first violation, the read fails and stays failed, a 1002 Close is sent for the listed violations, top-bit lengths are never accepted, pongs echo ping payloads in order, a valid Close is echoed. Limit family: L in {1,125,126,1000} x message sizes around L x every fragmentation into <= 3 frames over the boundary cut points, and claimed lengths overflowing the running total. Cut family: every cut offset of every valid sequence <= 3 frames. state = abstract receiver state; transition = one frame."+closeRule)
+	c.Assume("non-minimal length encodings, a 1-byte Close payload and RSV1 on continuation/control frames under negotiated compression are outside the judged set", "text payloads are not checked for UTF-8 (the statement does not list it)", "the 1002 Close is not demanded for a top-bit length, only rejection",
+		"close codes 1012-1014 (registered after RFC 6455) with a well-formed reason may be accepted or rejected, coherently (CloseError with the code and an echo, or failure with a 1002 Close); the status code of the echo of a valid Close is not judged",
+		"the reader's replies go through WriteControl with a 1 s wall-clock deadline: the package clock is frozen (rule R2) and its timers never fire (R2b), so a descheduled worker loses no reply; as a second line of defence a failing frame-sequence or Close case is re-run twice on fresh Conns and reported only when it fails each time (counter transient_outcomes, expected 0)")
+	vtime.Enable(time.Now())
 	h := &harness{c: c}
 	depth := 3
 	if c.Thorough() {
 		depth = 4
 	}
 	c.Info("depth", depth)
+	// the Close family is small: it runs first so that the budget of the depth-first part cannot cut it
+	h.closeFamily()
+	if c.Expired() {
+		return
+	}
 	for _, cf := range []cfg{{Server: true}, {Server: false}, {Server: true, Compression: true}, {Server: false, Compression: true}} {
 		a := alphabet(cf)
 		c.Info(fmt.Sprintf("alphabet_server=%v_compression=%v", cf.Server, cf.Compression), len(a))
@@ -623,8 +690,11 @@ func replay(c *hl.Ctx, raw json.RawMessage) {
 	if err := json.Unmarshal(raw, &cs); err != nil {
 		panic(err)
 	}
+	vtime.Enable(time.Now())
 	h := &harness{c: c}
 	switch cs.Part {
+	case "close":
+		replayClose(c, raw)
 	case "seq":
 		ref := &wsref.Receiver{IsServer: cs.Cfg.Server, Compression: cs.Cfg.Compression}
 		var frames []wsref.Frame
